@@ -886,6 +886,33 @@ def container_rules(repo, rep, m):
                 rep.holds('R-INDEX', key, where(g, g.node), 'the block `%s`, whose line %s is optional, is walked as a whole' % (var, sorted(idxs)), work=False)
 
 
+def station_key_rules(repo, rep, m):
+    """read_sinex_matrix builds one record per station from parallel per-station lists (code, solution number): both are taken at the station's
+    POSITION.  A list replaced by a dictionary keyed by the station code collapses stations that occur with several solution numbers
+    (ALIC 1, 2, 3 all come back with the last one): the solution number must be indexed like the code it stands next to."""
+    f = m.functions.get('read_sinex_matrix')
+    if f is None:
+        raise AnalysisError('anchor vanished: gnss.read_sinex_matrix')
+    key = 'R-INDEX::geodepy/gnss.py::read_sinex_matrix::station-fields-by-position'
+    tuples = [n for n in ast.walk(f.node) if isinstance(n, ast.Assign) and isinstance(n.value, ast.Tuple) and len(n.value.elts) >= 5
+              and isinstance(n.value.elts[0], ast.Subscript) and isinstance(n.value.elts[1], ast.Subscript)]
+    if not tuples:
+        rep.undecided('R-INDEX', key, where(f, f.node), 'record tuples (code[i], soln[i], ...) not found')
+        return
+    bad = None
+    for t in tuples:
+        i0, i1 = stmt_text(t.value.elts[0].slice), stmt_text(t.value.elts[1].slice)
+        if i0 != i1:
+            bad = bad or (t, i0, i1)
+    if bad:
+        t, i0, i1 = bad
+        rep.violated('R-INDEX', key, where(f, t), 'the record takes the station code at `[%s]` and the solution number at `[%s]`: the second is looked up by VALUE (a dictionary keyed by the code), '
+                     'so a station that occurs with several solution numbers gets the last one in every record' % (i0, i1), expected='both at the station position [%s]' % i0,
+                     actual=stmt_text(t.value.elts[1])[:40])
+    else:
+        rep.holds('R-INDEX', key, where(f, tuples[0]), 'code and solution number of each record are taken at the same station position (%d record forms)' % len(tuples))
+
+
 def verbatim_rules(repo, rep, m):
     """'leaves every other line unchanged': the block readers whose lines the editors write back (comments, header and data blocks) keep each
     line as it is in the file apart from the line end - `line.rstrip()`.  A reader that strips BOTH ends removes the blank in column 1
@@ -935,6 +962,7 @@ def run(repo, rep):
     reader_rules(repo, rep, m)
     container_rules(repo, rep, m)
     verbatim_rules(repo, rep, m)
+    station_key_rules(repo, rep, m)
     from . import c18x
     c18x.run(rep, m)
     c18x.run2(rep, m)
